@@ -103,6 +103,7 @@ type Exec struct {
 	stepReqs, stepMuts int
 	stepEff            int
 	callSeq            int
+	aborted            bool
 	saved              map[string][]string // labelled results of version steps
 }
 
@@ -202,6 +203,11 @@ func NewExec(tr *Tracer, sc *Scenario) *Exec {
 
 func (e *Exec) Close() {
 	for _, c := range e.clients {
+		if e.aborted {
+			// a Go panic unwound through SQLite's C frames: the connection's mutex may still be held and
+			// closing it would block forever; abandon the connection
+			continue
+		}
 		e.closeClient(c)
 	}
 	storesMu.Lock()
@@ -449,27 +455,17 @@ func (e *Exec) doOpen(s Step) {
 	c.inc++
 	e.tabSeq++
 	c.table = fmt.Sprintf("t%d_%s_%d", scnSeq, c.id, e.tabSeq)
-	args := []string{}
-	if mode == "ro" || mode == "hist" {
-		args = append(args, "readonly")
-	}
-	args = append(args, "columns='"+strings.ReplaceAll(e.colspec, "'", "''")+"'")
-	args = append(args, "s3_bucket='"+e.st.name+"'", "s3_endpoint='http://"+c.id+"'", "s3_prefix='"+e.prefix+"'")
-	epn := s.num("epn", e.epn)
-	if epn > 0 {
-		args = append(args, fmt.Sprintf("entries_per_node=%d", epn))
-	}
-	cache := s.num("cache", e.cache)
-	if cache > 0 {
-		args = append(args, fmt.Sprintf("node_cache_entries=%d", cache))
-	}
 	e.emit("open_start", s, map[string]interface{}{"mode": mode})
-	_, err = e.exec(c, "create virtual table "+c.table+" using s3db ("+strings.Join(args, ", ")+")")
+	_, err = e.exec(c, e.createSQL(c, s, mode))
 	out := map[string]interface{}{"mode": mode, "outcome": classifyErr(err), "err": errStr(err), "when": s.num("when", 100+e.stepIdx), "perm": s.num("perm", -1)}
 	if err == nil {
 		if s.num("shadow", e.sc.Cfg.num("shadow", 0)) == 1 {
 			c.shadow = true
-			if _, err := e.exec(c, "create table sh (k primary key, "+strings.Join(e.cols, ", ")+") without rowid"); err != nil {
+			shspec := e.sc.Cfg.str("shadow_colspec")
+			if shspec == "" {
+				shspec = "k primary key, " + strings.Join(e.cols, ", ")
+			}
+			if _, err := e.exec(c, "create table sh ("+shspec+") without rowid"); err != nil {
 				panic(err)
 			}
 		}
@@ -946,6 +942,10 @@ func (e *Exec) runStep(s Step) {
 		e.doPrefill(s)
 	case "tx2tables":
 		e.doTx2Tables(s)
+	case "sql":
+		e.doSQL(s)
+	case "reopen":
+		e.doReopen(s)
 	case "plan":
 		e.doPlan(s)
 	case "heal":
@@ -988,6 +988,7 @@ func (e *Exec) RunSeq() bool {
 					msg = msg[:600]
 				}
 				e.emit("panic", s, map[string]interface{}{"op": s.str("op"), "msg": msg})
+				e.aborted = true
 				return false
 			}
 		case <-time.After(e.stepTO):
@@ -1089,4 +1090,76 @@ func (e *Exec) doTx2Tables(s Step) {
 	out["outcome"] = "ok"
 	out["err"] = "-"
 	e.emit("tx2", s, out)
+}
+
+// doSQL runs one SQL statement (text with {T} for the table) on the s3db table
+// and on the native shadow table of the same connection, and logs both
+// outcomes / results side by side (C06, C07, C08).
+func (e *Exec) doSQL(s Step) {
+	c := e.client(s.str("c"))
+	q := s.str("q")
+	args := []interface{}{}
+	for _, l := range s.strs("args") {
+		args = append(args, mustLit(l))
+	}
+	out := map[string]interface{}{"q": q, "args": s.strs("args"), "kind": s.str("kind"), "ordered": s.num("ordered", 0)}
+	if s.has("wt") {
+		if err := e.setWriteTime(c, s.num("wt", -1)); err != nil {
+			out["outcome"], out["err"] = "error", "set write_time: "+errStr(err)
+			e.emit("sql", s, out)
+			return
+		}
+	}
+	run := func(table string) (string, int, [][]string, string) {
+		qq := strings.ReplaceAll(q, "{T}", table)
+		if s.str("kind") == "query" {
+			rows, err := e.query(c, qq, args...)
+			if err != nil {
+				rows = [][]string{}
+			}
+			return classifyErr(err), 0, rows, errStr(err)
+		}
+		n, err := e.exec(c, qq, args...)
+		return classifyErr(err), n, [][]string{}, errStr(err)
+	}
+	o, n, rows, es := run(c.table)
+	out["outcome"], out["affected"], out["rows"], out["err"] = o, n, rows, es
+	if c.shadow && strings.Contains(q, "{T}") {
+		o2, n2, rows2, es2 := run("sh")
+		out["sh_outcome"], out["sh_affected"], out["sh_rows"], out["sh_err"] = o2, n2, rows2, es2
+	}
+	e.emit("sql", s, out)
+}
+
+func (e *Exec) createSQL(c *cli, s Step, mode string) string {
+	args := []string{}
+	if mode == "ro" || mode == "hist" {
+		args = append(args, "readonly")
+	}
+	args = append(args, "columns='"+strings.ReplaceAll(e.colspec, "'", "''")+"'")
+	args = append(args, "s3_bucket='"+e.st.name+"'", "s3_endpoint='http://"+c.id+"'", "s3_prefix='"+e.prefix+"'")
+	epn := s.num("epn", e.epn)
+	if epn > 0 {
+		args = append(args, fmt.Sprintf("entries_per_node=%d", epn))
+	}
+	cache := s.num("cache", e.cache)
+	if cache > 0 {
+		args = append(args, fmt.Sprintf("node_cache_entries=%d", cache))
+	}
+	return "create virtual table " + c.table + " using s3db (" + strings.Join(args, ", ") + ")"
+}
+
+// doReopen drops the virtual table and creates it again on the SAME SQLite
+// connection (the native shadow table of that connection stays): the s3db
+// table is re-read from the bucket.
+func (e *Exec) doReopen(s Step) {
+	c := e.client(s.str("c"))
+	_, err := e.exec(c, "drop table "+c.table)
+	if err == nil {
+		e.tabSeq++
+		c.table = fmt.Sprintf("t%d_%s_%d", scnSeq, c.id, e.tabSeq)
+		e.setPlanForOpen(c, s)
+		_, err = e.exec(c, e.createSQL(c, s, c.mode))
+	}
+	e.emit("reopen", s, map[string]interface{}{"outcome": classifyErr(err), "err": errStr(err)})
 }
